@@ -20,7 +20,7 @@ from ..refs.blocks import ref_blocks, ref_merge
 ID = "C05"
 TECHNIQUE = "bounded-exhaustive enumeration of shapes x thresholds x merge flag on the real Distributor (index-set oracle from arange contents) + exploration of all mask histories for blocked-vs-presplit optimizers"
 RULE = (
-    "tiling: all shapes of order 0..4 with dims in 1..Dmax (4 quick, 5 thorough) x max_preconditioner_dim in {1..7,1024} x merge {on,off}; "
+    "tiling: all shapes of order 0..4 with dims in 1..Dmax (4 quick, 5 thorough) x max_preconditioner_dim in {1..7,1024} x merge {on,off} (thresholds 2, 3, 1024 additionally with the parameter/gradient as views at a non-zero storage offset and with a gradient in another memory layout); "
     "invariance: configs x shapes {(5,3),(4,4),(2,3,4),(7,),(2,1,3)} x thresholds {2,3} x all mask histories of depth D over 2 parameters. "
     "state = (shape,threshold,merge) resp. visible optimizer digest; non-trivial = parameter split into >= 2 blocks"
 )
@@ -81,12 +81,23 @@ def work(tier, seed):
 # ----------------------------------------------------------------------------- tiling
 
 
-def make_distributor(torch, shape, max_dim, merge, frozen=False):
+PAD = 5  # elements in front of the parameter inside the flat buffer of the "offset" layout
+
+
+def make_distributor(torch, shape, max_dim, merge, frozen=False, layout="plain"):
     from distributed_shampoo.shampoo_types import MAX_PRECONDITIONER_DIM, PARAMS, USE_MERGE_DIMS
     from distributed_shampoo.utils.shampoo_distributor import Distributor
 
     n = prod(shape) if shape else 1
-    p = torch.nn.Parameter(torch.arange(n, dtype=torch.float32).reshape(shape), requires_grad=not frozen)
+    if layout == "offset":
+        # the parameter is a view into a flat buffer (flattened parameter buffers, bucket views): storage_offset() != 0
+        buf = torch.full((PAD + n + 3,), -7.0)
+        buf[PAD : PAD + n] = torch.arange(n, dtype=torch.float32)
+        p = torch.nn.Parameter(buf[PAD : PAD + n].view(shape), requires_grad=not frozen)
+        assert p.storage_offset() == PAD and p.untyped_storage().data_ptr() == buf.untyped_storage().data_ptr()
+        p._verif_buf = buf
+    else:
+        p = torch.nn.Parameter(torch.arange(n, dtype=torch.float32).reshape(shape), requires_grad=not frozen)
     group = {PARAMS: [p], MAX_PRECONDITIONER_DIM: max_dim, USE_MERGE_DIMS: merge}
     d = Distributor(group)
     if frozen:
@@ -94,10 +105,10 @@ def make_distributor(torch, shape, max_dim, merge, frozen=False):
     return p, d
 
 
-def check_tiling(torch, shape, max_dim, merge, frozen=False):
+def check_tiling(torch, shape, max_dim, merge, frozen=False, layout="plain"):
     msgs = []
     n = prod(shape) if shape else 1
-    p, d = make_distributor(torch, shape, max_dim, merge, frozen)
+    p, d = make_distributor(torch, shape, max_dim, merge, frozen, layout)
     blocks = d.local_blocked_params
     mshape, ref = ref_blocks(shape, max_dim, merge)
     # reference-free invariants
@@ -143,9 +154,29 @@ def check_tiling(torch, shape, max_dim, merge, frozen=False):
             msgs.append("writing through the last block is not visible in the parameter")
         with torch.no_grad():
             blocks[-1].sub_(1000.0)
+        if layout == "offset":
+            buf = p._verif_buf
+            if not (bool((buf[:PAD] == -7.0).all()) and bool((buf[PAD + n :] == -7.0).all())):
+                msgs.append("writing through a block modified memory outside the parameter (padding of the flat buffer)")
     # gradient blocks cover the same index sets in the same order
-    p.grad = (torch.arange(n, dtype=torch.float32) * 2 + 1).reshape(shape)
-    gb = d.merge_and_block_gradients()
+    gfull = (torch.arange(n, dtype=torch.float32) * 2 + 1).reshape(shape)
+    if layout == "offset":
+        gbuf = torch.full((3 + n + 2,), -9.0)
+        gbuf[3 : 3 + n] = gfull.reshape(-1)
+        p.grad = gbuf[3 : 3 + n].view(shape)
+    elif layout == "tgrad":
+        # same values and shape, other memory layout (reversed dimension order in memory); .grad accepts any strides.
+        # The library may reject such a gradient where merging needs a view (RuntimeError), but must never scramble it.
+        perm = list(range(len(shape)))[::-1]
+        p.grad = gfull.permute(perm).contiguous().permute(perm)
+    else:
+        p.grad = gfull
+    try:
+        gb = d.merge_and_block_gradients()
+    except RuntimeError as e:
+        if layout == "tgrad" and "view size is not compatible" in str(e):
+            return msgs, len(blocks), ("tgrad-rejected",)
+        raise
     if len(gb) != len(blocks):
         msgs.append(f"{len(gb)} gradient blocks vs {len(blocks)} parameter blocks")
     else:
@@ -231,6 +262,15 @@ def run_unit(unit):
                         if not msgs and max_dim in (2, 1024):
                             m2, _, _ = check_tiling(torch, shape, max_dim, merge, frozen=True)
                             msgs = [f"(parameter frozen at construction, unfrozen later) {m}" for m in m2]
+                        if not msgs and max_dim in (2, 3, 1024):
+                            m2, _, _ = check_tiling(torch, shape, max_dim, merge, layout="offset")
+                            msgs = [f"(parameter and gradient are views into flat buffers at a non-zero storage offset) {m}" for m in m2]
+                            res["stats"]["offset_layout_cases"] = res["stats"].get("offset_layout_cases", 0) + 1
+                        if not msgs and max_dim in (2, 3, 1024) and len(shape) >= 2 and sum(1 for x in shape if x > 1) >= 2:
+                            m2, _, sg = check_tiling(torch, shape, max_dim, merge, layout="tgrad")
+                            msgs = [f"(gradient with another memory layout than the parameter) {m}" for m in m2]
+                            res["stats"]["tgrad_cases"] = res["stats"].get("tgrad_cases", 0) + 1
+                            res["stats"]["tgrad_rejected_by_view"] = res["stats"].get("tgrad_rejected_by_view", 0) + int(sg == ("tgrad-rejected",))
                     except Exception as e:
                         msgs, nb, sig = [f"raised {type(e).__name__}: {str(e)[:150]}"], 0, ()
                     res["evals"] += 1
@@ -281,8 +321,11 @@ def replay(case):
 
     if case["part"] == "tile":
         try:
-            a = check_tiling(torch, tuple(case["shape"]), case["max_dim"], case["merge"])[0]
-            return a or check_tiling(torch, tuple(case["shape"]), case["max_dim"], case["merge"], frozen=True)[0]
+            args = (torch, tuple(case["shape"]), case["max_dim"], case["merge"])
+            a = check_tiling(*args)[0] or check_tiling(*args, frozen=True)[0] or check_tiling(*args, layout="offset")[0]
+            if not a and len(case["shape"]) >= 2:
+                a = check_tiling(*args, layout="tgrad")[0]
+            return a
         except Exception as e:
             return [f"raised {type(e).__name__}: {e}"]
     a = check_invariance(case["cfg"], case["hist"])[0]
